@@ -144,6 +144,13 @@ class SubTag(ht.Tag):
     """A user subclass of Tag behaves like a Tag everywhere."""
 
 
+class FixedNameTag(ht.Tag):
+    """A user subclass with its own constructor signature (the element name is fixed by the class)."""
+
+    def __init__(self, *args, _add_ws=True, **kwargs):
+        super().__init__("x-card", *args, _add_ws=_add_ws, **kwargs)
+
+
 class SubDep(ht.HTMLDependency):
     """A user subclass of HTMLDependency is a dependency like any other."""
 
@@ -420,7 +427,10 @@ def build_tag(r):
         f = getattr(ht.svg, name)
     if r.get("subclass"):
         f = None
-    base = SubTag if r.get("subclass") else ht.Tag
+    if r.get("subclass") and name == "x-card":
+        base = lambda _n, *a, **kw: FixedNameTag(*a, **kw)   # noqa: E731  (the class supplies the name)
+    else:
+        base = SubTag if r.get("subclass") else ht.Tag
     mk = (lambda *a, **kw: f(*a, _add_ws=ws, **kw)) if f else (lambda *a, **kw: base(name, *a, _add_ws=ws, **kw))
     # attributes: each attribute by dict (keeps arbitrary names and order)
     attr_args = [{n: build_attr_value(v)} for n, v in attrs]
@@ -486,6 +496,22 @@ def build_tag(r):
                 pass
         t.extend(kids)
         return t
+    if how == "sum_with_empty_is_new":
+        # `children + []` (and `[] + children`) are new lists: changing them leaves the tag alone
+        t = mk(*attr_args, *kids)
+        for alias in (t.children + [], [] + t.children, t.children + ht.TagList(), t.children[:], t.children * 1):
+            # (if an operation handed back the tag's own list, the junk shows up in the tag - which is the point)
+            alias.append("junk-added-to-a-derived-list")
+            alias.insert(0, ht.Tag("junk"))
+        return t
+    if how == "attrs_from_template":
+        # attributes taken from another element's attribute map; the other element is changed afterwards
+        tpl = ht.Tag("template-el", *attr_args)
+        t = (f(tpl.attrs, *kids, _add_ws=ws) if f else base(name, tpl.attrs, *kids, _add_ws=ws)) if attr_args else mk(*kids)
+        tpl.add_class("junk-class")
+        tpl.attrs["data-junk"] = "1"
+        tpl.attrs.update({"title": "junk"}, id="junk")
+        return t
     if how == "used_as_context":
         import sys as _sys
 
@@ -522,7 +548,7 @@ def build_tag(r):
 
 
 HOWS = ["ctor", "ctor", "ctor_mixed", "nested", "append", "append_many", "extend", "insert", "taglist", "toggle_ws", "reassign_children",
-        "slice_children", "iadd", "insert_neg_list", "extend_iter", "iadd_gen", "extend_map", "used_as_context", "setitem_last", "after_rejected_extend"]
+        "slice_children", "iadd", "insert_neg_list", "extend_iter", "iadd_gen", "extend_map", "used_as_context", "setitem_last", "after_rejected_extend", "sum_with_empty_is_new", "attrs_from_template"]
 
 
 # ------------------------------------------------------------------ recipe helpers
@@ -617,6 +643,8 @@ def rand_tree(rng, depth=4, kinds=None, names=tag_name, max_children=5, attrs=Tr
                 r["via_fn"] = False
             if rng.random() < 0.05:
                 r["subclass"] = True
+                if rng.random() < 0.5 and name not in ("script", "style"):
+                    r["name"] = "x-card"   # a subclass that fixes its element name
             return r
         if k == "text":
             return {"k": "text", "s": text(rng)}
